@@ -44,7 +44,7 @@ def n_cases(tier):
 
 def one_case(rng, tier):
     kind = rng.choice(['from_iterable', 'from_iterable', 'from_iterable_list', 'from_periodic', 'from_textfile',
-                       'filenames', 'custom', 'from_q', 'custom_tornado'])
+                       'filenames', 'custom', 'from_q', 'custom_tornado', 'custom_listener'])
     poll = rng.choice([0.5, 1.0])
     svc = rng.choice([0, 0, 0.5, 1.5])
     ops = []
@@ -151,6 +151,36 @@ def check_case(case, counters, sets):
                         finally:
                             log.add('RUN_END', 'src', rid)
                 src = TornadoSource(asynchronous=True)
+            elif kind == 'custom_listener':
+                # a source in the style of from_tcp / from_http_server: run() is a plain function that opens a listener and
+                # returns at once; stop() is overridden and closes it
+                runs_t = {'n': 0}
+
+                class ListenerSource(Source):
+                    server = None
+
+                    def run(self):
+                        runs_t['n'] += 1
+                        rid = runs_t['n']
+                        log.add('RUN_BEGIN', 'src', rid)
+                        if self.stopped:
+                            return              # stopped again before the loop got round to opening the listener
+                        self.server = rid
+
+                        async def serve():
+                            while self.server == rid:
+                                log.add('CYCLE_BEGIN', 'src', rid)
+                                counter['n'] += 1
+                                await asyncio.gather(*self._emit(counter['n']))
+                                await asyncio.sleep(poll)
+                                log.add('CYCLE_END', 'src', rid)
+                        asyncio.ensure_future(serve())
+
+                    def stop(self):
+                        if not self.stopped:
+                            self.server = None
+                            self.stopped = True
+                src = ListenerSource(asynchronous=True)
             else:
                 class Custom(Source):
                     async def _run(self):
@@ -172,9 +202,9 @@ def check_case(case, counters, sets):
                     await orig_run()
                 finally:
                     log.add('RUN_END', 'src', rid)
-            if kind != 'custom_tornado':
+            if kind not in ('custom_tornado', 'custom_listener'):
                 src.run = run_wrapped
-            if hasattr(src, '_run') and kind not in ('from_iterable', 'from_iterable_list', 'custom_tornado'):
+            if hasattr(src, '_run') and kind not in ('from_iterable', 'from_iterable_list', 'custom_tornado', 'custom_listener'):
                 orig_cycle = src._run
 
                 async def cycle_wrapped():
@@ -189,7 +219,7 @@ def check_case(case, counters, sets):
             orig_emit = src._emit
 
             def emit_wrapped(x, metadata=None):
-                if kind == 'custom_tornado':
+                if kind in ('custom_tornado', 'custom_listener'):
                     return orig_emit(x, metadata=metadata)
                 log.add('SRC_EMIT', 'src', run_of_task.get(asyncio.current_task()), x)
                 return orig_emit(x, metadata=metadata)
